@@ -145,6 +145,13 @@ def run(ctx):
         sc = c08.cancel_scenario(Rng(ctx.seed * 7919 + k), k)
         sc["config"] = {"keep": True}
         scs.append(sc)
+    # errors that arrive after the owner of a lifecycle hook has ended (the C03 hook families)
+    from . import c03
+    for k in range(24 if ctx.tier == "quick" else 300):
+        r = Rng(ctx.seed * 6151 + k)
+        sc = c03.late_hook_error_scenario(r, k) if k % 2 == 0 else c03.failing_hook_scenario(r, k)
+        sc["config"] = {"keep": True}
+        scs.append(sc)
     evaluate(ctx, scs)
     ctx.cov["rule"] = ("action x closing-state x target matrix (exhaustive, %d cases) + seeded random histories of valid and "
                        "invalid actions with partial queue releases (a third with catches and evictions) + the catch family reloaded at every quiescent point; non-trivial = >=2 terminal writes and >=3 accepted "
